@@ -399,6 +399,17 @@ fn big_cases(seed: u64) -> Vec<Case> {
         v.push(Case::full(Algorithm::Lcs, &old, &new));
         v.push(Case::full(Algorithm::Lcs, &new, &old));
     }
+    // LOPSIDED unrelated inputs: one to three items against 600 / 1500 unrelated ones (a very long edit script in a box that
+    // is only a few items wide), both ways round
+    for (k, &long) in [600usize, 1500].iter().enumerate() {
+        for short in [1usize, 3] {
+            let a: Vec<u32> = (0..short as u32).map(|i| 700_000 + i).collect();
+            let b: Vec<u32> = (0..long as u32).map(|i| 800_000 + i).collect();
+            let alg = if (k + short) % 2 == 0 { Algorithm::Myers } else { Algorithm::Patience };
+            v.push(Case::full(alg, &a, &b));
+            v.push(Case::full(alg, &b, &a));
+        }
+    }
     // blocks moved across bigger blocks, hundreds of edits in ONE divide step: old = j K B S T, new = K S B T'
     // (all items distinct; keeping B costs 2|S|, keeping S costs 2|B|). An early-exit rule of the middle-snake search
     // (a "good enough" snake after so many rounds) splits off every shortest path only on shapes like this one.
